@@ -83,7 +83,7 @@ Peg(pools, height, tip902) ==
         s1 == IF Gt(dmel, sm.l) THEN SwapMany(sm, d1, Zero).pool ELSE sm
         d2 == IF Gt(dsym, s1.r) THEN DivSmall(Sub(dsym, s1.r), thr) ELSE Zero
         s2 == IF Gt(dsym, s1.r) THEN SwapMany(s1, Zero, d2).pool ELSE s1
-    IN [pools |-> Put(pools, K_MS, s2), melIn |-> d1, symIn |-> d2]
+    IN [pools |-> Put(pools, K_MS, s2), melIn |-> d1, symIn |-> d2, dmel |-> dmel, dsym |-> dsym, mid |-> s1, thr |-> thr]
 
 \* TIP-909; returns [pools, feeGain, symIn]
 Subsidy909(pools, height, tip909a) ==
